@@ -16,6 +16,15 @@ STEER = {
           "elements, absent optional) at the very start or the very end of the data or of a nested packet, and features used in an unusual ORDER in a "
           "declaration (positioned field first, described field last, bits after a variable field, optional before its flag is known to be set by a "
           "default). A single small change is fine as long as ordinary use and the doc examples do not expose it. The existing 40 tests must still pass."),
+    'g': ("Look for what is LEFT in the lesser-read parts: packet_builder.py (how the fields written in the class body are collected, renamed, given "
+          "slots and descriptors, how the move pseudo-fields and the hidden fields of Bits/Sequence/Optional are inserted, how the source comments "
+          "are attached), the prototype / pickling / cloning machinery in packet.py, pattern_matching.py, the less common branches of codegen.py "
+          "(annotate off, vectorize off, how a run of fixed fields is split by a variable field or by a change of byte order, fields without struct "
+          "code inside a run), and multi-class programs: three or more classes that reference each other, one class used both as a plain reference "
+          "and as the element of a repeated field, one sub-packet class shared by two holders that have different class options, a holder with "
+          "generated code around a nested class without (or the other way round), long declarations (twenty or more fields), field names that are "
+          "prefixes of each other or look like the library's hidden names. A single small change is fine as long as ordinary use and the doc "
+          "examples do not expose it. The existing 40 tests must still pass."),
 }
 for i in range(1, 21):
     pid = 'C%02d' % i
